@@ -16,8 +16,10 @@ RULE = ("generator of C04 restricted to cases with a start checkpoint (start_epo
         "80% on epoch boundaries; plus checkpoints given in two ways at once and start_sample off a batch boundary); "
         "the resumed stream is compared with the tail of a fresh run of the real code, for some cases also the batches "
         "the real DataLoader delivers; non-trivial = resumed run accepted and shorter than the fresh one; distinct by "
-        "(geometry,budget,start,configs)")
-shrink = I.shrink
+        "(geometry,budget,start,configs); plus iteration histories: the resumed object iterated twice / after an "
+        "abandoned iteration, fresh and resumed schedulers built on ONE main sampler object and run in any order, "
+        "foreign set_epoch calls between construction and iteration - every iteration compared with a fresh model "
+        "and the final one with the suffix of an uninterrupted run on objects of its own")
 run_impl = I.run_impl
 coq_applicable = c04.coq_applicable
 coq_case = c04.coq_case
@@ -40,6 +42,16 @@ def gen_cases(rng, tier):
             if c["start"] is not None:
                 out.append(c)
                 k += 1
+    # iteration histories of resumed schedulers (epoch-dependent main orders favoured)
+    k = 0
+    while k < (130 if tier == "quick" else 1500):
+        c = I.gen_history_case(rng, want=lambda c: c["start"] is not None)
+        if c["start"] is None:
+            continue
+        if c["perm_seed"] is None and rng.random() < 0.6:
+            c["perm_seed"] = rng.randint(0, 999)
+        out.append(c)
+        k += 1
     # what the constructor answers to a checkpoint given in two ways / off a batch boundary
     k = 0
     while k < (60 if tier == "quick" else 600):
@@ -71,6 +83,9 @@ def search_cases(rng, tier):
 def oracle(case, obs):
     if "harness_exception" in obs:
         return "harness exception: " + obs["harness_exception"] + obs.get("tb", "")
+    msg = I.history_violation(case, obs, None, "stream (incl. set_epoch / iter calls)")
+    if msg:
+        return msg
     if case["start"] is None:
         return None
     e0 = I.start_epoch_of(case)
@@ -91,7 +106,7 @@ def oracle(case, obs):
     if tail != obs["log"]:
         d = next((i for i in range(min(len(tail), len(obs["log"]))) if tail[i] != obs["log"][i]),
                  min(len(tail), len(obs["log"])))
-        return (f"resumed stream differs from the uninterrupted run's suffix at event {d}: "
+        return (I.items_tag(tail, obs["log"]) + f"resumed stream differs from the uninterrupted run's suffix at event {d}: "
                 f"uninterrupted {tail[d:d + 8]} resumed {obs['log'][d:d + 8]} "
                 f"(lengths {len(tail)} vs {len(obs['log'])})")
     if case.get("loader") is not None:
@@ -111,4 +126,7 @@ def nontrivial_key(case, obs):
     if obs.get("result") != "ok" or case["start"] is None or len(obs.get("fresh", [])) <= len(obs["log"]):
         return None
     return (case["N"], case["B"], case["drop_last"], case["D"], tuple(case["budget"]), tuple(case["start"]),
-            len(case["sides"]), case.get("loader"))
+            len(case["sides"]), case.get("loader"), case.get("main_kind", "lazy"), len(case.get("scenario") or []))
+
+
+shrink = I.shrink_keeping(oracle, run_impl)
